@@ -1315,3 +1315,33 @@ def rule_readmisc(text):
     text, a = _method_to_fn(text, "map_first3", "result_first3", "R-rmap", "definition of Result::map with a projecting closure (verified shim)")
     apps += a
     return text, apps
+
+
+def rule_atomicmisc(text):
+    """read-modify-write one-offs (atomic.rs / json_patch.rs)"""
+    apps = []
+    table = [
+        (r"(\w+)\s*\.\s*filter\s*\(\s*\|\s*(\w+)\s*\|\s*\*\2\s*!=\s*0\s*\)", r"(match \1 { Some(\2) if \2 != 0 => Some(\2), _ => None })", "R-ofilt", "definition of Option::filter (the closure only dereferences its argument)"),
+        (r"\.\s*read\s*\(\s*(&?\w+)\s*,\s*\|\s*_\s*,\s*(\w+)\s*\|\s*(?:Arc\s*::\s*clone\s*\(\s*\2\s*\)|\2\s*\.\s*clone\s*\(\s*\))\s*\)", r".read_arc(\1)", "R-hread", "shim: the lookup closure only clones the Arc it is handed"),
+        (r"(\w+)\s*\.\s*as_ref\s*\(\s*\)\s*\.\s*map_or\s*\(\s*0\s*,\s*\|\s*(\w+)\s*:\s*&Arc<Record>\s*\|\s*\2\s*\.\s*retirement_timestamp\s*\(\s*\)\s*\)",
+         r"(match \1.as_ref() { Some(\2) => \2.retirement_timestamp(), None => 0 })", "R-omapor", "definition of Option::map_or"),
+        (r"let\s+(\w+)\s*=\s*(\w+)\s*\.\s*get_or_insert_with\s*\(\s*\|\s*\|\s*(Arc\s*::\s*clone\s*\(\s*&\w+\s*\))\s*\)\s*;",
+         r"if \2.is_none() { \2 = Some(\3); } let \1 = \2.as_ref().unwrap();", "R-getorinsert", "definition of Option::get_or_insert_with, read-only use of the result"),
+        (r"i64\s*::\s*from_le_bytes\s*\(\s*(\w+)\s*\.\s*as_ref\s*\(\s*\)\s*\.\s*try_into\s*\(\s*\)\s*\.\s*map_err\s*\(\s*\|\s*_\s*\|\s*FeoxError\s*::\s*InvalidNumericValue\s*\)\s*\?\s*,?\s*\)",
+         r"i64_from_le8(&\1)?", "R-le", "shim: the little-endian i64 of an 8-byte value, InvalidNumericValue otherwise"),
+        (r"(\w+)\s*\.\s*saturating_add\s*\(\s*delta\s*\)", r"sat_add_i64(\1, delta)", "R-arith", "definition of i64::saturating_add (verified shim)"),
+        (r"(\w+)\s*\.\s*unwrap_or_else\s*\(\s*\|\s*\|\s*(self\s*\.\s*get_timestamp\s*\(\s*key\s*\))\s*\)", r"(match \1 { Some(t_) => t_, None => \2 })", "R-ounwrapor", "definition of Option::unwrap_or_else"),
+        (r"(\w+)\s*\.\s*as_ref\s*\(\s*\)\s*!=\s*expected\b", r"bytes_ne(&\1, expected)", "R-seq", "shim: byte-wise comparison"),
+        (r"std\s*::\s*mem\s*::\s*size_of\s*::\s*<\s*i64\s*>\s*\(\s*\)", "size_of_i64()", "R-sizeof", "size_of::<i64>() == 8"),
+        (r"crate\s*::\s*utils\s*::\s*json_patch\s*::\s*apply_json_patch\s*\(", "apply_json_patch(", "R-handle", "path of an opaque callee"),
+        (r"let\s+mut\s+observed\s*=\s*None\s*;", "let mut observed: Option<Arc<Record>> = None;", "R-type", "type annotation the closure parameter used to provide"),
+    ]
+    for pat, rep, rname, why in table:
+        while True:
+            mm = re.search(pat, text)
+            if not mm:
+                break
+            new = mm.expand(rep)
+            apps.append(_app(rname, text, mm.start(), mm.end(), new, why))
+            text = text[:mm.start()] + new + text[mm.end():]
+    return text, apps
